@@ -112,12 +112,12 @@ Proof.
 Qed.
 (* ... and for the searches the main loop starts (Model/Uci.v): in a state holding a position that satisfies the invariant -- every state a session of
    admissible lines reaches, C03_every_session_state_holds_a_legal_position -- a `go` examines only positions that satisfy it *)
-Theorem C06_main_loop_searches_examine_only_consistent_positions : forall extra u depth max_time input, legal_inv (u_game u) ->
-  match session_search extra u depth max_time input with
+Theorem C06_main_loop_searches_examine_only_consistent_positions : forall extra dl u depth max_time input, legal_inv (u_game u) ->
+  match session_search extra dl u depth max_time input with
   | SDone _ e _ => Forall node_inv (trace e)
   | SFuel => True
   end.
-Proof. intros extra u depth max_time input LI. unfold session_search. apply C06_every_position_of_a_whole_search_is_consistent. exact LI. Qed.
+Proof. intros extra dl u depth max_time input LI. unfold session_search. apply C06_every_position_of_a_whole_search_is_consistent. exact LI. Qed.
 
 Print Assumptions C06_fuel.
 Print Assumptions C06_every_position_of_a_whole_search_is_consistent.
